@@ -46,7 +46,8 @@ from psyclone.psyir.nodes import (Routine, Container, ArrayReference, Range,
                                   FileContainer, IfBlock, UnaryOperation,
                                   CodeBlock, ACCRoutineDirective, Literal,
                                   IntrinsicCall, BinaryOperation, Reference)
-from psyclone.psyir.symbols import ArrayType, Symbol, INTEGER_TYPE
+from psyclone.psyir.symbols import (ArrayType, DataSymbol, Symbol,
+                                    INTEGER_TYPE)
 from psyclone.psyir.transformations.transformation_error \
     import TransformationError
 
@@ -269,6 +270,14 @@ then
         for sym in node.symbol_table.automatic_datasymbols:
             if (sym is node.return_symbol or not sym.is_array or
                     sym.is_constant):
+                continue
+            # Exclude any array whose precision is given by a symbol that
+            # is local to this routine since the hoisted declaration would
+            # not be able to see it.
+            precision = getattr(sym.datatype, "precision", None)
+            if (isinstance(precision, DataSymbol) and
+                    precision.name in node.symbol_table and
+                    node.symbol_table.lookup(precision.name) is precision):
                 continue
             # Check whether all of the bounds of the array are defined - an
             # allocatable array will have array dimensions of
